@@ -1,73 +1,1001 @@
+// C06 — block execution is deterministic: same block + same parent state => same application hash,
+// receipts, logs bloom, gas used and validator-set updates on every node and run.
+//
+// Engine E3 (small-scope exhaustive enumeration) on the REAL node stack (blockchain.NewBlockChain over a
+// memorydb with the staking contracts and three genesis validators, tx pool, evidence pool,
+// BlockOperations, cstate.BlockExecutor; no consensus state machine). Blocks = every sequence of <= 2
+// (quick) / <= 3 (thorough) transaction templates over a 19-template alphabet, over three parent states.
+// Every block is
+//
+//	(i)   built through the PROPOSER path (pool.AddLocal -> CreateProposalBlock -> SaveBlock -> ApplyBlock on
+//	      node P) and run through the RECEIVER path on fresh nodes (parts -> PartSet.AddPart -> BlockFromProto
+//	      -> ValidateBlock -> SaveBlock -> ApplyBlock);
+//	(ii)  executed under cache configurations {TrieDirtyDisabled} x {SnapshotLimit} x {Preimages} x
+//	      {TrieCleanNoPrefetch}, on nodes that executed the parent blocks themselves (warm) and on nodes
+//	      restarted from a stopped node's database (cold);
+//	(iii) repeated in fresh objects, once more after >1 s of wall-clock time, and (thorough) in three worker
+//	      processes of this binary.
+//
+// Oracle: every observation (node.go, type obs) is identical across all variants; the proposer's block
+// validates and applies on the receiver. Plus the validator-report permutation sub-check (valrep.go).
 package main
 
 import (
+	"bufio"
+	"math/big"
+	"flag"
 	"fmt"
 	"os"
+	"os/exec"
+	"os/signal"
+	"runtime"
+	"sort"
+	"strings"
+	"sync"
+	"syscall"
 	"time"
 
+	"github.com/kardiachain/go-kardia/kai/kaidb/memorydb"
+	"github.com/kardiachain/go-kardia/kai/state/cstate"
 	"github.com/kardiachain/go-kardia/kvm"
 	"github.com/kardiachain/go-kardia/lib/common"
 	"github.com/kardiachain/go-kardia/lib/crypto"
 	"github.com/kardiachain/go-kardia/mainchain/staking"
+	"github.com/kardiachain/go-kardia/trie"
 	"github.com/kardiachain/go-kardia/types"
+
+	"verif/mc/par"
+	"verif/mc/report"
 )
+
+var r *report.Run
+
+var workerOut = flag.String("c06worker", "", "worker-process mode: write reference digests of every case to this file")
+var workerMaxLen = flag.Int("c06maxlen", 2, "worker-process mode: longest template sequence")
+
+// ---------------------------------------------------------------------------------------------
+// parent states
+
+type image struct {
+	kv    [][2][]byte
+	state cstate.LatestBlockState
+}
+
+type prestate struct {
+	Kind   string // legacy | galaxias
+	Name   string // genesis | deployed
+	w      *world
+	blocks []*wireBlock
+	base   map[string]uint64
+	imgMu  sync.Mutex
+	images map[cacheCfg]*image
+}
+
+func (p *prestate) id() string { return p.Kind + "-" + p.Name }
+
+func fatal(a ...interface{}) {
+	fmt.Println(append([]interface{}{"MACHINERY-ERROR:"}, a...)...)
+	os.Exit(2)
+}
 
 func newWorld(kind string) *world {
 	w := &world{kind: kind}
 	n, err := boot(cfgFromBits(0), kind)
 	if err != nil {
-		fmt.Println("MACHINERY-ERROR: boot:", err)
-		os.Exit(2)
+		fatal("boot:", err)
 	}
 	defer n.close()
 	w.chainID = n.bc.Config().ChainID
 	w.X = crypto.CreateAddress(addrA, 0)
-	su, _ := staking.NewSmcStakingUtil()
-	vu, _ := staking.NewSmcValidatorUtil()
+	su, err1 := staking.NewSmcStakingUtil()
+	vu, err2 := staking.NewSmcValidatorUtil()
+	if err1 != nil || err2 != nil {
+		fatal("staking utils:", err1, err2)
+	}
 	w.valAbi, w.stakeAbi = vu.Abi, su.Abi
 	st, err := n.bc.State()
 	if err != nil {
-		panic(err)
+		fatal(err)
 	}
 	for i := range valKeys {
 		a, err := su.GetValFromOwner(st, n.bc.CurrentBlock().Header(), n.bc, kvm.Config{}, valAddr(i))
 		if err != nil || (a == common.Address{}) {
-			panic(fmt.Sprint("validator contract of genesis validator ", i, ": ", a, err))
+			fatal("validator contract of genesis validator", i, a, err)
 		}
 		w.ValSmc[i] = a
 	}
+	// the address of the validator contract that B's createValidator creates (CREATE2: independent of the parent state):
+	// execute the template once on the scratch node and ask the staking contract
+	var newVal int
+	for i, t := range alphabet {
+		if t.Name == "newValB" {
+			newVal = i
+		}
+	}
+	txs := buildTxs(w, []int{newVal}, map[string]uint64{})
+	if err := n.pool.AddLocal(txs[0]); err != nil {
+		fatal("newValB rejected by the pool:", err)
+	}
+	block, parts, err := n.propose(nil)
+	if err != nil {
+		fatal(err)
+	}
+	if o := n.applyBlock(block, parts, n.seenCommit(block, parts)); o.Err != "" || len(o.Receipts) != 1 || o.Receipts[0].Status != 1 {
+		fatal("scratch execution of newValB failed:", fmt.Sprintf("%+v", o))
+	}
+	st, _ = n.bc.State()
+	a, err := su.GetValFromOwner(st, n.bc.CurrentBlock().Header(), n.bc, kvm.Config{}, addrB)
+	if err != nil || (a == common.Address{}) {
+		fatal("validator contract created by B not found", err)
+	}
+	w.NewValB = a
 	return w
 }
 
-func main() {
-	kind := "galaxias"
-	w := newWorld(kind)
-	n, err := boot(cfgFromBits(0), kind)
-	if err != nil {
-		panic(err)
-	}
-	base := map[string]uint64{"A": 0, "B": 0, "V3": 0}
-	var prev *wireBlock
-	for _, seq := range [][]int{{7, 10}, {0, 1, 2, 3, 4, 5, 6, 8, 9, 10, 11, 12, 15, 16, 17, 18, 13, 14}} {
-		txs := buildTxs(w, seq, base)
-		for i, tx := range txs {
+// buildPrestates constructs the parent chains through the real proposer path (single sender => the pool's order is fixed).
+func buildPrestates(kinds []string) []*prestate {
+	var out []*prestate
+	for _, kind := range kinds {
+		w := newWorld(kind)
+		gen := &prestate{Kind: kind, Name: "genesis", w: w, base: map[string]uint64{"A": 0, "B": 0, "V3": 0}, images: map[cacheCfg]*image{}}
+		out = append(out, gen)
+		n, err := boot(cfgFromBits(0), kind)
+		if err != nil {
+			fatal("boot:", err)
+		}
+		// block 1: A deploys the multi-purpose contract and calls "set" on it (slot1 = 0x1235, a log, a timestamp)
+		txs := []*types.Transaction{
+			sign(types.NewContractCreation(0, bigZero(), 500000, one, contractInit), keyA),
+			call(w, "A", 1, 1, one),
+		}
+		for _, tx := range txs {
 			if err := n.pool.AddLocal(tx); err != nil {
-				fmt.Println("AddLocal", alphabet[seq[i]].Name, err)
+				fatal("parent block transaction rejected by the pool:", err)
 			}
 		}
-		t0 := time.Now()
-		block, parts, err := n.propose(prev)
+		block, parts, err := n.propose(nil)
 		if err != nil {
-			panic(err)
+			fatal(err)
 		}
 		seen := n.seenCommit(block, parts)
-		fmt.Println("propose", time.Since(t0), len(block.Transactions()), block.Header().GasLimit)
 		o := n.applyBlock(block, parts, seen)
-		fmt.Printf("%+v\n", *o)
-		prev = toWire(block, parts, seen)
-		n.syncPool()
-		base = map[string]uint64{"A": 2, "B": 0, "V3": 0}
+		if o.Err != "" || len(o.Receipts) != 2 || o.Receipts[0].Status != 1 || o.Receipts[1].Status != 1 || len(o.Receipts[1].Logs) != 1 {
+			fatal("parent block 1 did not execute as designed:", fmt.Sprintf("%+v", o))
+		}
+		n.close()
+		dep := &prestate{Kind: kind, Name: "deployed", w: w, blocks: []*wireBlock{toWire(block, parts, seen)},
+			base: map[string]uint64{"A": 2, "B": 0, "V3": 0}, images: map[cacheCfg]*image{}}
+		out = append(out, dep)
 	}
-	_ = os.Exit
-	var _ = types.NewBlock
+	return out
+}
+
+func bigZero() *big.Int { return new(big.Int) }
+
+// imageFor returns the database of a node with configuration c that executed the parent blocks and was stopped
+// (BlockChain.Stop: cached state flushed, snapshot journalled), plus the consensus state it held.
+func (p *prestate) imageFor(c cacheCfg) (*image, error) {
+	p.imgMu.Lock()
+	defer p.imgMu.Unlock()
+	if im, ok := p.images[c]; ok {
+		return im, nil
+	}
+	n, err := boot(c, p.Kind)
+	if err != nil {
+		return nil, err
+	}
+	defer n.close()
+	for _, b := range p.blocks {
+		if o := n.receive(b); o.Err != "" {
+			return nil, fmt.Errorf("parent block %d: %s", b.Height, o.Err)
+		}
+	}
+	n.pool.Stop()
+	n.pool = nil
+	n.bc.Stop()
+	im := &image{state: n.state.Copy()}
+	it := n.db.NewIterator(nil, nil)
+	for it.Next() {
+		im.kv = append(im.kv, [2][]byte{append([]byte{}, it.Key()...), append([]byte{}, it.Value()...)})
+	}
+	it.Release()
+	p.images[c] = im
+	return im, nil
+}
+
+// ---------------------------------------------------------------------------------------------
+// variants
+
+type variant struct {
+	Cfg  cacheCfg `json:"cache_config"`
+	Rep  int      `json:"repetition"`
+	Cold bool     `json:"cold_restart"`
+}
+
+func (v variant) String() string {
+	s := v.Cfg.String() + fmt.Sprintf(",rep=%d", v.Rep)
+	if v.Cold {
+		s += ",cold"
+	}
+	return s
+}
+
+var refVariant = variant{Cfg: cfgFromBits(0)}
+
+// quick: four corner configurations in which every axis is on twice and off twice
+var cornerCfgs = []int{0b0000, 0b1111, 0b0110, 0b1001}
+
+func variantsFor(p *prestate, seqLen int) []variant {
+	var vs []variant
+	add := func(bits []int, reps int, cold bool) {
+		for _, b := range bits {
+			for k := 0; k < reps; k++ {
+				vs = append(vs, variant{Cfg: cfgFromBits(b), Rep: k})
+			}
+			if cold && len(p.blocks) > 0 {
+				vs = append(vs, variant{Cfg: cfgFromBits(b), Cold: true})
+			}
+		}
+	}
+	all := make([]int, 16)
+	for i := range all {
+		all[i] = i
+	}
+	switch {
+	case r.Quick():
+		add(cornerCfgs, 3, true)
+	case seqLen <= 2:
+		add(all, 3, true)
+	default:
+		// length-3 blocks: all 16 configurations once, the reference configuration three times, cold restarts on the corners
+		add([]int{0}, 3, true)
+		add(all[1:], 1, false)
+		for _, b := range cornerCfgs[1:] {
+			if len(p.blocks) > 0 {
+				vs = append(vs, variant{Cfg: cfgFromBits(b), Cold: true})
+			}
+		}
+	}
+	return vs
+}
+
+// nodeFor builds a fresh node in the parent state of p, the way variant v says.
+func nodeFor(p *prestate, v variant) (*node, error) {
+	if v.Cold {
+		im, err := p.imageFor(v.Cfg)
+		if err != nil {
+			return nil, err
+		}
+		db := memorydb.New()
+		for _, kv := range im.kv {
+			db.Put(kv[0], kv[1])
+		}
+		n, err := bootOn(db, v.Cfg, p.Kind)
+		if err != nil {
+			return nil, err
+		}
+		if n.bc.CurrentBlock().Height() != im.state.LastBlockHeight {
+			n.close()
+			return nil, fmt.Errorf("restarted node is at height %d, the stopped node was at %d", n.bc.CurrentBlock().Height(), im.state.LastBlockHeight)
+		}
+		// the consensus state a running node holds in memory (cstate persistence is C14's subject, not this check's)
+		n.state = im.state.Copy()
+		return n, nil
+	}
+	n, err := boot(v.Cfg, p.Kind)
+	if err != nil {
+		return nil, err
+	}
+	for _, b := range p.blocks {
+		if o := n.receive(b); o.Err != "" {
+			n.close()
+			return nil, fmt.Errorf("parent block %d: %s", b.Height, o.Err)
+		}
+	}
+	return n, nil
+}
+
+func (p *prestate) prev() *wireBlock {
+	if len(p.blocks) == 0 {
+		return nil
+	}
+	return p.blocks[len(p.blocks)-1]
+}
+
+// execute runs block w on a fresh node of variant v.
+func execute(p *prestate, v variant, w *wireBlock) *obs {
+	n, err := nodeFor(p, v)
+	if err != nil {
+		return &obs{Err: "node construction: " + firstLine(err.Error())}
+	}
+	defer n.close()
+	r.Add("evaluations", 1)
+	return n.receive(w)
+}
+
+// ---------------------------------------------------------------------------------------------
+// one case = one (parent state, template sequence)
+
+type caseID struct {
+	Sub      string   `json:"subcheck"`
+	Kind     string   `json:"chain"`
+	Pre      string   `json:"parent_state"`
+	Seq      []string `json:"templates"`
+	Axis     string   `json:"axis"`
+	Field    string   `json:"field"`
+	Variant  *variant `json:"variant,omitempty"`
+	Block    string   `json:"which_block"` // "enumerated" (template order) | "proposed" (what the pool produced)
+	RefValue string   `json:"reference_value"`
+	GotValue string   `json:"variant_value"`
+}
+
+type finding struct {
+	axis, field, what string
+	cid               caseID
+	seqLen, idx       int
+}
+
+type proposal struct {
+	poolVerdict []string
+	wireP       *wireBlock
+	obsP        *obs
+	wireF       *wireBlock
+	pOrder      []string
+	err         string
+}
+
+// proposerPath: node P in the parent state, pool.AddLocal of every template transaction, CreateProposalBlock, apply on P.
+// Also derives the ENUMERATED block F: P's header with the template transactions in template order.
+func proposerPath(p *prestate, seq []int) *proposal {
+	pr := &proposal{}
+	n, err := nodeFor(p, refVariant)
+	if err != nil {
+		pr.err = "node construction: " + firstLine(err.Error())
+		return pr
+	}
+	defer n.close()
+	n.syncPool()
+	txs := buildTxs(p.w, seq, p.base)
+	for _, tx := range txs {
+		if err := n.pool.AddLocal(tx); err != nil {
+			pr.poolVerdict = append(pr.poolVerdict, err.Error())
+		} else {
+			pr.poolVerdict = append(pr.poolVerdict, "accepted")
+		}
+	}
+	block, parts, err := n.propose(p.prev())
+	if err != nil || block == nil {
+		pr.err = fmt.Sprint("CreateProposalBlock: ", err)
+		return pr
+	}
+	seen := n.seenCommit(block, parts)
+	pr.wireP = toWire(block, parts, seen)
+	byHash := map[common.Hash]string{}
+	for i, tx := range txs {
+		byHash[tx.Hash()] = alphabet[seq[i]].Name
+	}
+	for _, tx := range block.Transactions() {
+		pr.pOrder = append(pr.pOrder, byHash[tx.Hash()])
+	}
+	// F: same header fields, every template transaction, template order; fresh transaction objects
+	fresh := buildTxs(p.w, seq, p.base)
+	hdr := block.Header()
+	hdr.TxHash, hdr.NumTxs = common.Hash{}, 0
+	fb := types.NewBlock(hdr, fresh, n.lastCommitFor(p.prev()), nil, trie.NewStackTrie(nil))
+	fparts := fb.MakePartSet(types.BlockPartSizeBytes)
+	if fb.Hash() == block.Hash() {
+		pr.wireF = pr.wireP
+	} else {
+		pr.wireF = toWire(fb, fparts, n.seenCommit(fb, fparts))
+	}
+	r.Add("evaluations", 1)
+	pr.obsP = n.applyBlock(block, parts, seen)
+	return pr
+}
+
+type caseResult struct {
+	ref      *obs
+	refAt    time.Time
+	findings []finding
+	pr       *proposal
+}
+
+func describe(p *prestate, seq []int) string { return seqName(seq) + "@" + p.id() }
+
+// localise re-executes to confirm a discrepancy and to name the axis.
+func localise(p *prestate, w *wireBlock, ref *obs, v variant, o *obs) (axis, field, a, b string) {
+	field, a, b = diff(ref, o)
+	ref2 := execute(p, refVariant, w)
+	if f, x, y := diff(ref, ref2); f != "" {
+		return "repetition", f, x, y // two executions under the reference configuration disagree
+	}
+	if v.Cfg == refVariant.Cfg && !v.Cold {
+		return "repetition", field, a, b
+	}
+	o2 := execute(p, v, w)
+	if f, _, _ := diff(ref, o2); f == "" {
+		return "repetition", field, a, b // the variant does not reproduce: it is not the configuration
+	}
+	if v.Cold {
+		oc := execute(p, variant{Cfg: refVariant.Cfg, Cold: true}, w)
+		if f, _, _ := diff(ref, oc); f != "" {
+			return "cold-restart", field, a, b
+		}
+	}
+	names := []string{"trie-dirty-disabled", "snapshot", "preimages", "prefetch"}
+	var set, guilty []string
+	bits := 0
+	for bit := 0; bit < 4; bit++ {
+		if axesBetween(refVariant.Cfg, v.Cfg) != "repetition" && cfgFromBits(1<<bit) == maskCfg(v.Cfg, bit) {
+			bits |= 1 << bit
+			set = append(set, names[bit])
+		}
+	}
+	if len(set) == 0 {
+		return "repetition", field, a, b // cold, reference configuration, and the cold reference run agreed: not reproducible
+	}
+	if len(set) > 1 {
+		for bit := 0; bit < 4; bit++ {
+			if bits&(1<<bit) == 0 {
+				continue
+			}
+			os := execute(p, variant{Cfg: cfgFromBits(1 << bit), Cold: v.Cold}, w)
+			if f, _, _ := diff(ref, os); f != "" {
+				guilty = append(guilty, names[bit])
+			}
+		}
+	}
+	if len(guilty) == 0 {
+		guilty = set
+	}
+	axis = strings.Join(guilty, "+")
+	if v.Cold {
+		axis += "+cold-restart"
+	}
+	return axis, field, a, b
+}
+
+// maskCfg keeps only axis `bit` of c.
+func maskCfg(c cacheCfg, bit int) cacheCfg {
+	switch bit {
+	case 0:
+		return cacheCfg{Archive: c.Archive}
+	case 1:
+		return cacheCfg{Snapshot: c.Snapshot}
+	case 2:
+		return cacheCfg{Preimages: c.Preimages}
+	}
+	return cacheCfg{NoPrefetch: c.NoPrefetch}
+}
+
+func runCase(p *prestate, seq []int, idx int, variants []variant) *caseResult {
+	cr := &caseResult{}
+	names := strings.Split(seqName(seq), ",")
+	mk := func(axis, field, what string, v *variant, which, a, b string) {
+		cr.findings = append(cr.findings, finding{axis: axis, field: field, what: what, seqLen: len(seq), idx: idx,
+			cid: caseID{Sub: "block", Kind: p.Kind, Pre: p.Name, Seq: names, Axis: axis, Field: field, Variant: v, Block: which, RefValue: clip(a), GotValue: clip(b)}})
+	}
+	pr := proposerPath(p, seq)
+	cr.pr = pr
+	if pr.err != "" {
+		mk("proposer-path", "proposal-failed", "the proposer path fails for "+describe(p, seq)+": "+pr.err, nil, "proposed", "", pr.err)
+		return cr
+	}
+	// --- the enumerated block on every variant
+	for i, v := range variants {
+		v := v
+		o := execute(p, v, pr.wireF)
+		if i == 0 {
+			cr.ref, cr.refAt = o, time.Now()
+			if o.Err != "" {
+				mk("receiver-path", "block-rejected", fmt.Sprintf("a fresh node rejects block [%s]: %s", describe(p, seq), o.Err), &v, "enumerated", "", o.Err)
+				return cr
+			}
+			continue
+		}
+		if f, _, _ := diff(cr.ref, o); f != "" {
+			axis, field, a, b := localise(p, pr.wireF, cr.ref, v, o)
+			mk(axis, field, fmt.Sprintf("block [%s] executed on two fresh nodes in the same parent state gives different %s (axis %s; variant %s): %s vs %s",
+				describe(p, seq), field, axis, v, clip(a), clip(b)), &v, "enumerated", a, b)
+		}
+	}
+	// --- proposer vs receiver
+	if pr.obsP.Err != "" {
+		mk("proposer-vs-receiver", "proposer-cannot-apply-own-block", fmt.Sprintf("the proposer cannot apply its own block [%s]: %s", describe(p, seq), pr.obsP.Err), nil, "proposed", "", pr.obsP.Err)
+		return cr
+	}
+	recv := cr.ref
+	if pr.wireP.Hash != pr.wireF.Hash {
+		recv = execute(p, refVariant, pr.wireP)
+		r.Add("proposed_block_differs_from_enumerated", 1)
+	}
+	if recv.Err != "" {
+		mk("proposer-vs-receiver", "block-rejected", fmt.Sprintf("the block a correct proposer built from the pool for [%s] (transactions %v) is rejected by a fresh validator: %s",
+			describe(p, seq), pr.pOrder, recv.Err), nil, "proposed", "", recv.Err)
+	} else if f, a, b := diff(pr.obsP, recv); f != "" {
+		// confirm on a second receiver
+		again := execute(p, refVariant, pr.wireP)
+		axis := "proposer-vs-receiver"
+		if f2, _, _ := diff(recv, again); f2 != "" {
+			axis, f = "repetition", f2
+		}
+		mk(axis, f, fmt.Sprintf("the proposer of block [%s] (transactions %v) and a validator that received it end in different %s: %s vs %s", describe(p, seq), pr.pOrder, f, clip(a), clip(b)),
+			nil, "proposed", a, b)
+	}
+	return cr
+}
+
+func workerProcs() int {
+	if n := runtime.NumCPU() / 4; n > 2 {
+		return n
+	}
+	return 2
+}
+
+func clip(s string) string {
+	if len(s) > 300 {
+		return s[:300] + "..."
+	}
+	return s
+}
+
+// ---------------------------------------------------------------------------------------------
+// enumeration
+
+type job struct {
+	p   *prestate
+	seq []int
+}
+
+func enumerate(pres []*prestate, maxLen int) []job {
+	var jobs []job
+	for l := 0; l <= maxLen; l++ {
+		var seqs [][]int
+		var rec func(cur []int)
+		rec = func(cur []int) {
+			if len(cur) == l {
+				seqs = append(seqs, append([]int{}, cur...))
+				return
+			}
+			for t := range alphabet {
+				rec(append(cur, t))
+			}
+		}
+		rec(nil)
+		for _, s := range seqs {
+			for _, p := range pres {
+				jobs = append(jobs, job{p, s})
+			}
+		}
+	}
+	return jobs
+}
+
+func kindsAndPrestates() []*prestate {
+	all := buildPrestates([]string{"legacy", "galaxias"})
+	var use []*prestate
+	for _, p := range all {
+		// legacy chain: genesis and deployed; galaxias chain (fork at block 1): the block AFTER the fork block,
+		// built by the pre-executing proposer; thorough additionally executes the fork block itself
+		if p.Kind == "galaxias" && p.Name == "genesis" && !r.Thorough() {
+			continue
+		}
+		use = append(use, p)
+	}
+	return use
+}
+
+// outcome of template i of a sequence in observation o
+func outcomes(p *prestate, seq []int, o *obs) []string {
+	txs := buildTxs(p.w, seq, p.base)
+	out := make([]string, len(seq))
+	for i, tx := range txs {
+		h := tx.Hash().Hex()
+		out[i] = "?"
+		for _, rc := range o.Receipts {
+			if rc.TxHash == h {
+				if rc.Status == 1 {
+					out[i] = "ok"
+				} else {
+					out[i] = "failed"
+				}
+			}
+		}
+		for k, s := range o.Skipped {
+			if s == h {
+				out[i] = "skipped:" + o.SkipWhy[k]
+			}
+		}
+	}
+	return out
+}
+
+func workerMain() {
+	// worker process: reference execution of every case, digests to a file; no evidence, no verdict
+	sig := make(chan os.Signal, 1)
+	signal.Notify(sig, syscall.SIGTERM)
+	go func() { <-sig; fmt.Println("worker: SIGTERM"); os.Exit(3) }()
+	pres := kindsAndPrestates()
+	jobs := enumerate(pres, *workerMaxLen)
+	lines := make([]string, len(jobs))
+	par.For(int64(len(jobs)), 1, nil, func(i int64) {
+		j := jobs[i]
+		pr := proposerPath(j.p, j.seq)
+		if pr.err != "" {
+			lines[i] = fmt.Sprintf("%s|%s|proposer-error|%s", j.p.id(), seqName(j.seq), pr.err)
+			return
+		}
+		o := execute(j.p, refVariant, pr.wireF)
+		lines[i] = fmt.Sprintf("%s|%s|%s|%s|%s", j.p.id(), seqName(j.seq), pr.wireF.Hash.Hex(), o.digest(), o.Err)
+	})
+	f, err := os.Create(*workerOut)
+	if err != nil {
+		fatal(err)
+	}
+	bw := bufio.NewWriter(f)
+	for _, l := range lines {
+		fmt.Fprintln(bw, l)
+	}
+	bw.Flush()
+	f.Close()
+	os.Exit(0)
+}
+
+func main() {
+	r = report.New("C06", "exploration")
+	if *workerOut != "" {
+		workerMain()
+	}
+	if r.ReplayPath != "" {
+		replay()
+	}
+	maxLen := 2
+	dl := 75 * time.Second
+	if r.Thorough() {
+		maxLen, dl = 3, 13*time.Minute
+	}
+	r.SetDeadline(dl)
+
+	// worker processes (thorough): started first, compared at the end
+	type wproc struct {
+		cmd  *exec.Cmd
+		path string
+	}
+	var workers []wproc
+	if r.Thorough() {
+		for k := 0; k < 3; k++ {
+			path := fmt.Sprintf("/dev/shm/verif-c06-%d-w%d.txt", os.Getpid(), k)
+			if _, err := os.Stat("/dev/shm"); err != nil {
+				path = fmt.Sprintf("%s/verif-c06-%d-w%d.txt", os.TempDir(), os.Getpid(), k)
+			}
+			cmd := exec.Command(os.Args[0], "-tier", "thorough", "-no-evidence", "-c06worker", path, "-c06maxlen", "2")
+			cmd.Env = append(os.Environ(), fmt.Sprintf("GOMAXPROCS=%d", workerProcs()), "VERIF_NOEVIDENCE=1")
+			cmd.Stdout, cmd.Stderr = os.Stderr, os.Stderr
+			if err := cmd.Start(); err != nil {
+				fatal("cannot start worker process:", err)
+			}
+			workers = append(workers, wproc{cmd, path})
+		}
+	}
+
+	// 1. validator-report order sub-check (pure, fast)
+	runValidatorReports()
+
+	// 2. blocks
+	pres := kindsAndPrestates()
+	jobs := enumerate(pres, maxLen)
+	results := make([]*caseResult, len(jobs))
+	var mu sync.Mutex
+	seenOutcome := map[string]map[string]bool{}
+	skipReasons := map[string]bool{}
+	appHashes := map[string]bool{}
+	var grew, shrank, repowered, pDiffers int64
+	done := par.For(int64(len(jobs)), 1, r.Expired, func(i int64) {
+		j := jobs[i]
+		vs := variantsFor(j.p, len(j.seq))
+		cr := runCase(j.p, j.seq, int(i), vs)
+		results[i] = cr
+		r.Add("blocks", 1)
+		if cr.ref == nil || cr.ref.Err != "" {
+			return
+		}
+		oc := outcomes(j.p, j.seq, cr.ref)
+		okOrSkipped := false
+		mu.Lock()
+		for k, t := range j.seq {
+			nm := alphabet[t].Name
+			if seenOutcome[nm] == nil {
+				seenOutcome[nm] = map[string]bool{}
+			}
+			cls := oc[k]
+			if strings.HasPrefix(cls, "skipped:") {
+				skipReasons[strings.TrimPrefix(cls, "skipped:")] = true
+				cls = "skipped"
+				okOrSkipped = true
+			}
+			if cls == "ok" {
+				okOrSkipped = true
+			}
+			seenOutcome[nm][cls] = true
+		}
+		appHashes[cr.ref.AppHash] = true
+		cur, nxt := len(cr.ref.Validators.Vals), len(cr.ref.NextVals.Vals)
+		switch {
+		case nxt > cur:
+			grew++
+		case nxt < cur:
+			shrank++
+		case cr.ref.NextVals.Hash != cr.ref.Validators.Hash:
+			repowered++
+		}
+		if cr.pr != nil && cr.pr.wireP != nil && cr.pr.wireP.Hash != cr.pr.wireF.Hash {
+			pDiffers++
+		}
+		mu.Unlock()
+		if okOrSkipped {
+			r.Distinct("distinct_nontrivial", describe(j.p, j.seq))
+		}
+		r.Distinct("distinct_result_digests", cr.ref.digest())
+		if r.WantSample() && len(j.seq) == 2 && (strings.Contains(seqName(j.seq), "stakeA") || strings.Contains(seqName(j.seq), "poorA")) {
+			r.Sample(map[string]interface{}{"chain": j.p.Kind, "parent_state": j.p.Name, "templates": strings.Split(seqName(j.seq), ","),
+				"pool_verdicts": cr.pr.poolVerdict, "proposed_block_order": cr.pr.pOrder, "outcomes_in_enumerated_block": oc,
+				"variants_executed": len(vs), "observation": cr.ref})
+		}
+	})
+	exhaustive := done == int64(len(jobs))
+
+	// 3. delayed repetition: every block of <= 1 transaction once more, at least 1.1 s after its reference execution
+	// (anything that reads the wall clock at second granularity shows only now)
+	var delayed int
+	for i, j := range jobs {
+		if len(j.seq) > 1 || results[i] == nil || results[i].ref == nil || results[i].ref.Err != "" || results[i].pr.wireF == nil {
+			continue
+		}
+		if w := 1100*time.Millisecond - time.Since(results[i].refAt); w > 0 {
+			time.Sleep(w)
+		}
+		o := execute(j.p, refVariant, results[i].pr.wireF)
+		delayed++
+		if f, a, b := diff(results[i].ref, o); f != "" {
+			// confirm: immediately again; if the two late executions agree with each other but not with the early one it is the clock
+			o2 := execute(j.p, refVariant, results[i].pr.wireF)
+			axis := "repetition-after-one-second"
+			if f2, _, _ := diff(o, o2); f2 != "" {
+				axis = "repetition"
+			}
+			names := strings.Split(seqName(j.seq), ",")
+			v := refVariant
+			results[i].findings = append(results[i].findings, finding{axis: axis, field: f, seqLen: len(j.seq), idx: i,
+				what: fmt.Sprintf("block [%s] executed again on a fresh node more than one second later gives different %s: %s vs %s", describe(j.p, j.seq), f, clip(a), clip(b)),
+				cid:  caseID{Sub: "block", Kind: j.p.Kind, Pre: j.p.Name, Seq: names, Axis: axis, Field: f, Variant: &v, Block: "enumerated", RefValue: clip(a), GotValue: clip(b)}})
+		}
+	}
+	r.Set("delayed_repetitions", delayed)
+
+	// 4. worker processes
+	if len(workers) > 0 {
+		idxOf := map[string]int{}
+		for i, j := range jobs {
+			idxOf[j.p.id()+"|"+seqName(j.seq)] = i
+		}
+		compared := 0
+		for k, w := range workers {
+			err := w.cmd.Wait()
+			b, rerr := os.ReadFile(w.path)
+			os.Remove(w.path)
+			if err != nil || rerr != nil {
+				fatal(fmt.Sprintf("worker process %d failed: %v %v", k, err, rerr))
+			}
+			for _, line := range strings.Split(strings.TrimSpace(string(b)), "\n") {
+				f := strings.SplitN(line, "|", 5)
+				if len(f) < 4 {
+					continue
+				}
+				i, ok := idxOf[f[0]+"|"+f[1]]
+				if !ok || results[i] == nil || results[i].ref == nil || results[i].pr == nil || results[i].pr.wireF == nil {
+					continue
+				}
+				j := jobs[i]
+				names := strings.Split(seqName(j.seq), ",")
+				var field, a, b string
+				switch {
+				case f[2] == "proposer-error":
+					field, a, b = "proposal-failed", "", f[3]
+				case f[2] != results[i].pr.wireF.Hash.Hex():
+					field, a, b = "enumerated-block-hash", results[i].pr.wireF.Hash.Hex(), f[2]
+				case f[3] != results[i].ref.digest():
+					field, a, b = "result-digest", results[i].ref.digest(), f[3]
+				}
+				compared++
+				if field != "" {
+					results[i].findings = append(results[i].findings, finding{axis: "process", field: field, seqLen: len(j.seq), idx: i,
+						what: fmt.Sprintf("block [%s] executed in another process of the same binary gives a different %s: %s vs %s", describe(j.p, j.seq), field, a, b),
+						cid:  caseID{Sub: "block", Kind: j.p.Kind, Pre: j.p.Name, Seq: names, Axis: "process", Field: field, Block: "enumerated", RefValue: a, GotValue: b}})
+				}
+			}
+		}
+		r.Set("worker_processes", len(workers))
+		r.Set("cross_process_comparisons", compared)
+		r.Require(compared > 0, "no cross-process comparison took place")
+	}
+
+	// 5. report: one signature per (axis, field), canonicalised to the shortest failing block
+	best := map[string]finding{}
+	count := map[string]int{}
+	for _, cr := range results {
+		if cr == nil {
+			continue
+		}
+		for _, f := range cr.findings {
+			k := f.axis + "|" + f.field
+			count[k]++
+			if b, ok := best[k]; !ok || f.seqLen < b.seqLen || (f.seqLen == b.seqLen && f.idx < b.idx) {
+				best[k] = f
+			}
+		}
+	}
+	var keys []string
+	for k := range best {
+		keys = append(keys, k)
+	}
+	sort.Strings(keys)
+	for _, k := range keys {
+		f := best[k]
+		sig := fmt.Sprintf("C06|block=%s@%s-%s|axis=%s|field=%s", strings.Join(f.cid.Seq, ","), f.cid.Kind, f.cid.Pre, f.axis, f.field)
+		r.Violation(sig, fmt.Sprintf("%s [%d enumerated blocks show this axis/field]", f.what, count[k]), f.cid)
+	}
+
+	// 6. coverage, vacuity guards
+	if exhaustive {
+		r.Exhaustive(true)
+	} else {
+		r.NotExhaustive(fmt.Sprintf("deadline: %d of %d enumerated blocks executed (shortest first)", done, len(jobs)))
+	}
+	var pn []string
+	for _, p := range pres {
+		pn = append(pn, p.id())
+	}
+	r.Set("parent_states", pn)
+	r.Set("alphabet", len(alphabet))
+	r.Set("max_block_len", maxLen)
+	r.Set("distinct_app_hashes", len(appHashes))
+	r.Set("blocks_validator_set_grew", grew)
+	r.Set("blocks_validator_set_shrank", shrank)
+	r.Set("blocks_validator_repowered", repowered)
+	var sr []string
+	for k := range skipReasons {
+		sr = append(sr, k)
+	}
+	sort.Strings(sr)
+	r.Set("skip_reasons_seen", sr)
+	r.Set("rule", "blocks = every sequence of <= "+fmt.Sprint(maxLen)+" transaction templates over the "+fmt.Sprint(len(alphabet))+"-template alphabet (txs.go) x parent states "+strings.Join(pn, ", ")+
+		"; the enumerated block carries the template transactions in template order on the header the real proposer produced; every block is executed by ApplyBlock on fresh real node stacks under the variants "+
+		"{cache configuration} x {repetition} x {warm, cold restart} and once through the proposer path; evaluations = block executions by BlockExecutor.ApplyBlock (+ validator-report evaluations, listed separately); "+
+		"distinct_nontrivial = distinct (template sequence, parent state) whose reference execution executed >= 1 transaction successfully or skipped >= 1 transaction (measured from receipts); "+
+		"validator reports: every permutation of every report of <= 4 of 5 addresses x {absent, power 0, same power, other power} on 5 base sets")
+	r.Assume("Go's per-iteration map-order randomisation cannot be enumerated: it is exercised by the repetitions (>= 3 fresh executions per configuration, >= 12 per block) and by separate processes (thorough), not exhausted",
+		"TrieCleanNoPrefetch is carried through the enumeration but at this commit nothing in the block path consults it (StateDB.StartPrefetcher is never called): that axis cannot differ by construction",
+		"validator reports contain each address at most once (the staking contract's valSets holds each validator once); a report with a duplicated address IS order dependent in calculateValidatorSetUpdates and is excluded",
+		"cold restarts are handed the consensus state the stopped node held in memory: persistence of LatestBlockState is C14's subject",
+		"blocks are signed by all genesis validators with vote times that are a function of the height; block time is the median of those",
+		"the proposer's choice of transaction order (TxPool.Pending iterates a map) is the proposer's freedom, not a result: compared is what every node makes of one given block",
+		"memorydb stands in for LevelDB; SnapshotWait=true (snapshot generation finishes before the first block)")
+	if exhaustive {
+		for _, t := range alphabet {
+			want := t.Want
+			switch want {
+			case "kind":
+				r.Require(seenOutcome[t.Name]["skipped"] && seenOutcome[t.Name]["ok"], "template xferProtB was not both skipped (legacy signer) and executed (galaxias signer)")
+				continue
+			case "dep":
+				want = "ok"
+			}
+			r.Require(seenOutcome[t.Name][want], fmt.Sprintf("template %s never had its designed outcome %q (seen %v)", t.Name, want, seenOutcome[t.Name]))
+		}
+		for _, why := range []string{"nonce too low", "nonce too high", "insufficient funds", "gas limit reached", "invalid"} {
+			found := false
+			for k := range skipReasons {
+				if strings.Contains(k, why) {
+					found = true
+				}
+			}
+			r.Require(found, "no transaction was skipped for reason: "+why)
+		}
+		r.Require(grew > 0 && shrank > 0 && repowered > 0, fmt.Sprintf("validator-set updates not exercised by blocks: grew=%d shrank=%d repowered=%d", grew, shrank, repowered))
+		r.Require(pDiffers > 0, "the proposer never built a block different from the enumerated one")
+		r.Require(len(appHashes) > len(jobs)/4, "too few distinct application hashes: the templates do not change state")
+	}
+	r.Finish()
+}
+
+// ---------------------------------------------------------------------------------------------
+// replay
+
+func replay() {
+	var probe struct {
+		Sub string `json:"subcheck"`
+	}
+	if err := r.LoadReplay(&probe); err != nil {
+		fatal("cannot load replay:", err)
+	}
+	if probe.Sub == "validator-report-order" {
+		var c vrCase
+		r.LoadReplay(&c)
+		if replayValidatorReport(c) {
+			fmt.Printf("VIOLATION property=C06 replay=%s\n", r.ReplayPath)
+			os.Exit(1)
+		}
+		fmt.Println("no oracle fails on this case")
+		os.Exit(0)
+	}
+	var c caseID
+	if err := r.LoadReplay(&c); err != nil {
+		fatal("cannot load replay:", err)
+	}
+	pres := buildPrestates([]string{c.Kind})
+	var p *prestate
+	for _, q := range pres {
+		if q.Name == c.Pre {
+			p = q
+		}
+	}
+	if p == nil {
+		fatal("unknown parent state", c.Pre)
+	}
+	var seq []int
+	for _, nm := range c.Seq {
+		if nm == "(empty)" {
+			continue
+		}
+		found := false
+		for i, t := range alphabet {
+			if t.Name == nm {
+				seq = append(seq, i)
+				found = true
+			}
+		}
+		if !found {
+			fatal("unknown template", nm)
+		}
+	}
+	fmt.Printf("replaying block [%s]: recorded axis=%s field=%s\n", describe(p, seq), c.Axis, c.Field)
+	// thorough variant set (superset), plus the recorded variant
+	all := make([]int, 16)
+	for i := range all {
+		all[i] = i
+	}
+	var vs []variant
+	for _, b := range all {
+		for k := 0; k < 3; k++ {
+			vs = append(vs, variant{Cfg: cfgFromBits(b), Rep: k})
+		}
+		if len(p.blocks) > 0 {
+			vs = append(vs, variant{Cfg: cfgFromBits(b), Cold: true})
+		}
+	}
+	cr := runCase(p, seq, 0, vs)
+	if cr.pr != nil {
+		fmt.Printf("  pool verdicts: %v ; proposed block order: %v\n", cr.pr.poolVerdict, cr.pr.pOrder)
+	}
+	if cr.ref != nil && cr.ref.Err == "" {
+		fmt.Printf("  reference: app hash %s, %d receipts, %d skipped, gas %d, reported %v\n", cr.ref.AppHash, len(cr.ref.Receipts), len(cr.ref.Skipped), cr.ref.GasUsed, cr.ref.Reported)
+		if c.Axis == "repetition-after-one-second" {
+			if w := 1100*time.Millisecond - time.Since(cr.refAt); w > 0 {
+				time.Sleep(w)
+			}
+			o := execute(p, refVariant, cr.pr.wireF)
+			if f, a, b := diff(cr.ref, o); f != "" {
+				cr.findings = append(cr.findings, finding{axis: c.Axis, field: f, what: fmt.Sprintf("a later execution differs in %s: %s vs %s", f, clip(a), clip(b))})
+			}
+		}
+	}
+	for _, f := range cr.findings {
+		fmt.Printf("  axis=%s field=%s: %s\n", f.axis, f.field, f.what)
+	}
+	if len(cr.findings) > 0 {
+		fmt.Printf("VIOLATION property=C06 replay=%s\n", r.ReplayPath)
+		os.Exit(1)
+	}
+	fmt.Println("no oracle fails on this case")
+	os.Exit(0)
 }
